@@ -2,6 +2,8 @@ import LitexModel.Axi.Burst2Beat
 import LitexModel.Axi.BurstSpec
 import LitexModel.Axi.WidthConv
 import LitexModel.Axi.WidthConvData
+import LitexModel.Axi.WidthConvSide
+import LitexModel.Axi.WidthConvMem
 import LitexModel.DriverLib
 /-
   Driver of C10.
@@ -18,6 +20,12 @@ import LitexModel.DriverLib
   call spec <start> <len> <size> <burst> <k>          -> axiSpecAddr
   call legal <aw> <addr> <len> <size> <burst>         -> 0|1
   call bytes <start> <len> <size> <burst>             -> byte addresses touched, in order
+  open sidereg|sidecombup|sidecombdown <ratio>        (data path + resp/id/user/dest, see LitexModel/Axi/WidthConvSide.lean)
+  Byte-level calls (LitexModel/Axi/WidthConvMem.lean); a byte lane is coded as 2*value + strobe, a word list as the
+  flat list of the lanes of all words:
+  call writes <bus> <addr> <len> <size> <burst> <lanes…>  -> burstWrites: "a0 v0 a1 v1 …" (words of <bus> lanes each)
+  call upwords <ratio> <nb> <lanes…>                      -> upWords: for every wide word its length, then its lanes
+  call downwords <nb> <ratio> <lanes…>                    -> downWords, same format (input words have nb*ratio lanes)
 -/
 open Litex Litex.Driver Litex.Axi
 
@@ -36,6 +44,14 @@ def b2bNum (caps : Caps) (aw : Nat) (hold : Bool) : NumMachine SysState where
     | _ => none
   key s := toString (repr s)
 
+/-- cut a flat lane list into words of `n` lanes -/
+partial def splitEvery (n : Nat) (l : List Nat) : List (List Nat) :=
+  if n = 0 || l.isEmpty then [] else l.take n :: splitEvery n (l.drop n)
+
+def decWord (l : List Nat) : BWord := l.map fun c => (c / 2, c % 2 == 1)
+def encWords (ws : List BWord) : String :=
+  showNats (ws.flatMap fun w => w.length :: w.map fun x => 2 * x.1 + (if x.2 then 1 else 0))
+
 def openMachine (args : List String) (hin hout : IO.FS.Stream) : Option (IO Bool) :=
   match args with
   | ["b2b", aw, incr, wrap, hold] =>
@@ -45,6 +61,9 @@ def openMachine (args : List String) (hin hout : IO.FS.Stream) : Option (IO Bool
     | _, _, _, _ => none
   | ["wup", ratio] => ratio.toNat?.map fun r => serve (wUpNum r) hin hout
   | ["wdown", ratio] => ratio.toNat?.map fun r => serve (wDownNum r) hin hout
+  | ["sidereg", ratio] => ratio.toNat?.map fun r => serve (sideRegNum r) hin hout
+  | ["sidecombup", ratio] => ratio.toNat?.map fun r => serve (sideCombUpNum r) hin hout
+  | ["sidecombdown", ratio] => ratio.toNat?.map fun r => serve (sideCombDownNum r) hin hout
   | _ => none
 
 def showReq (r : Req) : String := s!"{r.addr} {r.len} {r.size} {r.burst}"
@@ -71,6 +90,20 @@ def call (args : List String) : Option String :=
   | "bytes" :: rest =>
     match parseNats rest with
     | some [start, len, size, burst] => some (showNats (burstBytes start len size burst))
+    | _ => none
+  | "writes" :: rest =>
+    match parseNats rest with
+    | some (bus :: addr :: len :: size :: burst :: lanes) =>
+      some (showNats ((burstWrites bus ⟨addr, len, size, burst, 0⟩ ((splitEvery bus lanes).map decWord)).flatMap
+        fun x => [x.1, x.2]))
+    | _ => none
+  | "upwords" :: rest =>
+    match parseNats rest with
+    | some (ratio :: nb :: lanes) => some (encWords (upWords ratio ((splitEvery nb lanes).map decWord)))
+    | _ => none
+  | "downwords" :: rest =>
+    match parseNats rest with
+    | some (nb :: ratio :: lanes) => some (encWords (downWords nb ratio ((splitEvery (nb * ratio) lanes).map decWord)))
     | _ => none
   | _ => none
 
